@@ -27,7 +27,7 @@ RULE = ("2..8 blocks `TR(i) <block>`, i from 0,1,2,3,5,9,12,16,17,20, block = 1.
 TRUSTED = ["SMF container / track decoding by the extracted specification decoder (C01, C02)"]
 ASSUMES = ["blocks contain no TimeBase / TrackSync / TR / CH and no song-global command (KeyShift, KeyFlag, Tempo ...)",
            "half of the blocks end with a lettered note (no octave-once pending at the track change: the fragment of "
-           "C12_commute_partial); the other half may end with a pending ` or \" - settled by the Track arm since fix 6351c81",
+           "C12_commute_partial); the other half may end with a pending ` or \" - settled by change_cur_track since fixes 6351c81 / 3e10d77",
            "PLAY parts contain no comments; sync / play oracles use tracks <= 15 so that channel 15 belongs to the marker"]
 
 MARK = " CH(16)n100,%1,100,99,0 "
